@@ -1107,6 +1107,12 @@ pub fn normalise_rustc_message(text: &str) -> String {
     for prefix in ["std::boxed::", "std::option::", "std::vec::", "std::string::", "std::collections::", "core::num::", "std::num::"] {
         t = t.replace(prefix, "");
     }
+    // E0063 names the missing fields: `missing fields `a`, `b` and 1 other field in initializer of `T``
+    if let (Some(a), Some(b)) = (t.find("missing field"), t.find(" in initializer of")) {
+        if a < b {
+            t = format!("{}missing field(s) _{}", &t[..a], &t[b..]);
+        }
+    }
     for int in ["u8", "u16", "u32", "u64", "i8", "i16", "i32", "i64"] {
         t = t.replace(&format!("NonZero<{int}>"), "NonZero<int>");
     }
